@@ -1159,6 +1159,18 @@ func (prop) Execute(scAny any, phase string, log *core.Log) core.Result {
 			return res
 		}
 	}
+	// at the end of the history: the receivers seen through the rest of the
+	// public API (encoders, measures, bounds, Clone, high-level accessors) must
+	// look like freshly built objects of the same value
+	for k := 0; k < 2; k++ {
+		if tainted[k] || res.Violation != nil {
+			continue
+		}
+		if d := mgeom.TwinDiff(lib[k].t()); d != "" {
+			res.Fail("views-differ", "views-differ:"+s.Kind, "receiver %s at the end of the history: %s", names[k], d)
+			return res
+		}
+	}
 	res.Nontrivial = successes >= 2 && (sawEmpty || sawReject)
 	var pat strings.Builder
 	for _, p := range mod[0].Parts {
